@@ -196,24 +196,31 @@ impl Checker<'_> {
             (Some(g), None) => Err(("not-none", format!("yielded {:?} although the reference is exhausted", g))),
             (None, Some(i)) => Err(("wrong-item", format!("yielded None, expected item #{i} {:?}", self.expected[i]))),
             (Some(g), Some(i)) => {
-                for &o in &g.offs {
-                    if o < 0 || o as usize >= self.storage {
-                        return Err(("oob", format!("item address offset {o} outside storage of {} elements", self.storage)));
-                    }
-                }
-                if self.unique {
-                    for &o in &g.offs {
-                        if !self.seen.insert(o) {
-                            return Err(("dup-mut", format!("mutable iterator handed out element at offset {o} twice")));
-                        }
-                    }
-                }
+                self.check_safety(&g)?;
                 if g != self.expected[i] {
                     return Err(("wrong-item", format!("yielded {:?}, expected item #{i} {:?}", g, self.expected[i])));
                 }
                 Ok(())
             }
         }
+    }
+
+    /// Memory-safety part of the check: the item's addresses lie inside the
+    /// storage and (mutable iterators) were not handed out before.
+    fn check_safety(&mut self, g: &Fp) -> Result<(), (&'static str, String)> {
+        for &o in &g.offs {
+            if o < 0 || o as usize >= self.storage {
+                return Err(("oob", format!("item address offset {o} outside storage of {} elements", self.storage)));
+            }
+        }
+        if self.unique {
+            for &o in &g.offs {
+                if !self.seen.insert(o) {
+                    return Err(("dup-mut", format!("mutable iterator handed out element at offset {o} twice")));
+                }
+            }
+        }
+        Ok(())
     }
 }
 
@@ -395,11 +402,18 @@ fn run_inner<K: Kind>(
 }
 
 fn fold_check(ck: &mut Checker, got: &[Fp], lo: usize, hi: usize) -> Result<(), (&'static str, String)> {
+    // Memory safety first: a fold that runs past its window hands out elements
+    // that belong to another piece, which is aliasing for mutable iterators.
+    for g in got {
+        ck.check_safety(g)?;
+    }
     if got.len() != hi - lo {
         return Err(("wrong-item", format!("fold visited {} items, reference has {} remaining", got.len(), hi - lo)));
     }
     for (j, g) in got.iter().enumerate() {
-        ck.check_item(Some(g.clone()), Some(lo + j))?;
+        if *g != ck.expected[lo + j] {
+            return Err(("wrong-item", format!("fold yielded {:?}, expected item #{} {:?}", g, lo + j, ck.expected[lo + j])));
+        }
     }
     Ok(())
 }
